@@ -249,6 +249,9 @@ func (vm *vm) run() error {
 
 		case opDEFBLOCK:
 			// ( -- )
+			if vm.blockTos == blockStackSize {
+				return vm.runtimeError("blocks nested too deep")
+			}
 			blk := Block{
 				Type:   readConst().(string),
 				Name:   readConst().(string),
